@@ -410,48 +410,58 @@ def run(ctx: Ctx, rs: RuleSet, tier: str):
   dels = [n for n in g.nodes() if any(
       isinstance(e, ast.Call) and unparse(e.func) == 'delattr'
       for e in cfg_lib.walk_node(g, n))]
-  guards = []
-  for m in g.nodes():
-    if g.kind[m] == 'if' and isinstance(g.stmt[m].test, ast.BoolOp) and (
-        isinstance(g.stmt[m].test.op, ast.And)):
-      parts = g.stmt[m].test.values
-      # <default of the parameter> == <the argument's value>, the value being
-      # the loop variable over value.__arguments__.items()
-      vals = {unparse(L.target.elts[1]) for L in walk_function(f.node)
-              if isinstance(L, ast.For) and '.__arguments__.items()' in unparse(
-                  L.iter) and isinstance(L.target, ast.Tuple) and len(
-                      L.target.elts) == 2}
-      eq = any(isinstance(c, ast.Compare) and isinstance(c.ops[0], ast.Eq) and
-               {unparse(c.left), unparse(c.comparators[0])} & vals and any(
-                   isinstance(x, ast.Attribute) and x.attr == 'default'
-                   for side in (c.left, c.comparators[0])
-                   for x in roles.expand(f, side, 2))
-               for c in parts)
-      notkw = any(isinstance(c, ast.Compare) and isinstance(
-          c.ops[0], ast.NotEq) and 'VAR_KEYWORD' in unparse(c) for c in parts)
-      if eq and notkw:
-        guards.append(m)
-  ok = bool(dels) and bool(guards) and all(
-      d not in g.reach([g.entry], labels=cfg_lib.NO_EXC,
-                       edge_ok=lambda a, b, lab: not (a in guards and
-                                                      lab == 'true'))
+  from fdlstatic import dispatch
+  # <default of the parameter> == <the argument's value>, the value being
+  # the loop variable over value.__arguments__.items()
+  vals = {unparse(L.target.elts[1]) for L in walk_function(f.node)
+          if isinstance(L, ast.For) and '.__arguments__.items()' in unparse(
+              L.iter) and isinstance(L.target, ast.Tuple) and len(
+                  L.target.elts) == 2}
+  crd = ctx.func(f'{S}.experimental.visualize.with_defaults_trimmed.'
+                 'can_remove_deep_default')
+
+  def trim_atoms(equal, not_kwargs, unshared):
+    def ev(t):
+      if isinstance(t, ast.Compare) and len(t.ops) == 1 and isinstance(
+          t.ops[0], (ast.Eq, ast.NotEq)):
+        sides = (t.left, t.comparators[0])
+        if {unparse(x) for x in sides} & vals and any(
+            isinstance(x, ast.Attribute) and x.attr == 'default'
+            for side in sides for x in roles.expand(f, side, 2)):
+          if equal is None:
+            return None
+          return equal if isinstance(t.ops[0], ast.Eq) else not equal
+        if any(unparse(x).endswith('.kind') for x in sides) and any(
+            unparse(x).split('.')[-1] == 'VAR_KEYWORD' for x in sides):
+          if not_kwargs is None:
+            return None
+          return not_kwargs if isinstance(t.ops[0], ast.NotEq) else (
+              not not_kwargs)
+      if isinstance(t, ast.Call) and isinstance(
+          t.func, ast.Name) and t.func.id == crd.name:
+        return unshared
+      return None
+    return dispatch.through_locals(f, ev)
+
+  ok = bool(dels) and bool(vals) and all(
+      d not in dispatch.reach_atoms(g, trim_atoms(False, None, None)) and
+      d not in dispatch.reach_atoms(g, trim_atoms(None, False, None)) and
+      d in dispatch.reach_atoms(g, trim_atoms(True, True, True))
+      for d in dels)
+  in_guard = bool(dels) and all(
+      d not in dispatch.reach_atoms(g, trim_atoms(None, None, False))
       for d in dels)
   rs.check(ok, rule, f.qualname,
            'delattr is reached only through `default == value and kind != '
            'VAR_KEYWORD and ...`', ctx.loc(f, f.node))
   # ... and through the sharing check, which has no shortcut: a value equal
   # to the default that is also referenced elsewhere stays
-  crd = ctx.func(f'{S}.experimental.visualize.with_defaults_trimmed.'
-                 'can_remove_deep_default')
-  in_guard = all(any(isinstance(c, ast.Call) and isinstance(
-      c.func, ast.Name) and c.func.id == crd.name
-                     for c in ast.walk(g.stmt[m].test)) for m in guards)
   helpers = set(crd.nested)
   rets = [r for r in walk_function(crd.node) if isinstance(r, ast.Return)]
   shortcut = [r for r in rets if not (isinstance(r.value, ast.Call) and
                                       isinstance(r.value.func, ast.Name) and
                                       r.value.func.id in helpers)]
-  rs.check(bool(guards) and in_guard and bool(rets) and not shortcut, rule,
+  rs.check(in_guard and bool(rets) and not shortcut, rule,
            f'{crd.qualname}:no-shortcut',
            'the removal guard calls can_remove_deep_default, whose only '
            'result is the sharing analysis' if in_guard and not shortcut else
@@ -481,17 +491,34 @@ def run(ctx: Ctx, rs: RuleSet, tier: str):
   # replace_unconfigured_partials_with_callables
   f = ctx.func(f'{S}.experimental.transform.'
                'replace_unconfigured_partials_with_callables.transform')
-  ok = False
-  for n in walk_function(f.node):
-    if isinstance(n, ast.If) and isinstance(n.test, ast.BoolOp) and isinstance(
-        n.test.op, ast.And):
-      t = unparse(n.test)
-      exact = 'type(value) is partial.Partial' in t
-      noargs = 'not config.ordered_arguments(' in t and (
-          'include_equal_to_default=False' in t)
-      repl = any(isinstance(s, ast.Assign) and 'get_callable(value)' in unparse(
-          s.value) for s in n.body)
-      ok = exact and noargs and repl
+  from fdlstatic import dispatch
+  g2 = ctx.cfg(f)
+  vp2 = f.params[0]
+
+  def partial_atoms(exact, has_args):
+    def ev(t):
+      if isinstance(t, ast.Compare) and len(t.ops) == 1 and isinstance(
+          t.ops[0], ast.Is) and unparse(t.left) == f'type({vp2})' and unparse(
+              t.comparators[0]).split('.')[-1] == 'Partial':
+        return exact
+      if isinstance(t, ast.Call) and unparse(t.func).split('.')[-1] == (
+          'ordered_arguments') and [unparse(a_) for a_ in t.args] == [vp2]:
+        ie = kwarg(t, 'include_equal_to_default')
+        if isinstance(ie, ast.Constant) and ie.value is False and not kwarg(
+            t, 'include_defaults'):
+          return has_args
+      return None
+    return dispatch.through_locals(f, ev)
+
+  repl = [n for n in g2.nodes() if g2.kind[n] == 'stmt' and isinstance(
+      g2.stmt[n], (ast.Assign, ast.Return)) and any(
+          isinstance(e, ast.Call) and unparse(e.func).split('.')[-1] == (
+              'get_callable') and [unparse(a_) for a_ in e.args] == [vp2]
+          for e in cfg_lib.walk_node(g2, n))]
+  ok = bool(repl) and all(
+      n not in dispatch.reach_atoms(g2, partial_atoms(False, None)) and
+      n not in dispatch.reach_atoms(g2, partial_atoms(True, True)) and
+      n in dispatch.reach_atoms(g2, partial_atoms(True, False)) for n in repl)
   rs.check(ok, rule, f.qualname,
            'a node is replaced by its callable only if it is exactly a '
            'Partial with no argument different from the default',
@@ -529,44 +556,56 @@ def run(ctx: Ctx, rs: RuleSet, tier: str):
            'metadata minus history', ctx.loc(f, f.node), nontrivial=False)
   # materialize_tags
   f = ctx.func(f'{S}.tagging.materialize_tags.transform')
-  ok = False
   vp = f.params[0]
   payload = f'{vp}.value'
-  for n in walk_function(f.node):
-    if isinstance(n, ast.If) and 'TaggedValueCls' in unparse(n.test):
-      has_value = any(
-          isinstance(c, ast.Compare) and len(c.ops) == 1 and isinstance(
-              c.ops[0], (ast.NotEq, ast.IsNot)) and
-          {unparse(c.left), unparse(c.comparators[0])} == {payload, 'NO_VALUE'}
-          for c in ast.walk(n.test))
-      # the test is a conjunction: the payload check cannot be or-ed away
-      conj = not any(isinstance(b, ast.BoolOp) and isinstance(b.op, ast.Or) and
-                     any(payload in unparse(v) and 'NO_VALUE' in unparse(v)
-                         for v in b.values) for b in ast.walk(n.test))
-      local_payload = {t.id for s in n.body if isinstance(s, ast.Assign) and
-                       unparse(s.value) == payload for t in s.targets
-                       if isinstance(t, ast.Name)}
-      returns_payload = any(
-          isinstance(s, ast.Return) and s.value is not None and (
-              unparse(s.value) == payload or unparse(s.value) in local_payload)
-          for s in n.body)
-      ok = has_value and conj and returns_payload
+  g3 = ctx.cfg(f)
+
+  def tv_atoms(is_tv, has_value):
+    def ev(t):
+      if isinstance(t, ast.Call) and unparse(t.func) == 'isinstance' and len(
+          t.args) == 2 and unparse(t.args[0]) == vp and unparse(
+              t.args[1]).split('.')[-1] == 'TaggedValueCls':
+        return is_tv
+      if isinstance(t, ast.Compare) and len(t.ops) == 1 and {
+          unparse(t.left), unparse(t.comparators[0]).split('.')[-1]} == {
+              payload, 'NO_VALUE'}:
+        if isinstance(t.ops[0], (ast.NotEq, ast.IsNot)):
+          return has_value
+        if isinstance(t.ops[0], (ast.Eq, ast.Is)):
+          return None if has_value is None else not has_value
+      return None
+    return dispatch.through_locals(f, ev)
+
+  def payloads(is_tv, has_value):
+    return [v for v in dispatch.returned_under(
+        g3, tv_atoms(is_tv, has_value), f)
+            if unparse(roles.deref(f, v)) == payload]
+
+  ok = (bool(payloads(True, True)) and not payloads(True, False) and
+        not payloads(False, None))
   rs.check(ok, rule, f.qualname,
            'a TaggedValue is unwrapped only when it holds a value',
            ctx.loc(f, f.node))
   # convert_dataclasses_to_configs
   f = ctx.func(f'{S}.experimental.dataclasses.convert_dataclasses_to_configs.traverse')
   ok = False
-  for c in ctx.calls(f):
-    if unparse(c.func) == 'config.Config' and c.args and unparse(
-        c.args[0]) == 'type(value)':
+  vpd = f.params[0]
+  for c in roles.both_forms(f):
+    if isinstance(c, ast.Call) and unparse(c.func).split('.')[-1] == (
+        'Config') and c.args and unparse(c.args[0]) == f'type({vpd})':
       for kw in c.keywords:
-        if kw.arg is None and isinstance(kw.value, ast.DictComp):
-          dc = kw.value
-          ok = (unparse(dc.key) == 'field.name' and
-                unparse(dc.value) == 'getattr(value, field.name)' and
-                'dataclasses.fields(value)' in unparse(dc.generators[0].iter)
-                and [unparse(i) for i in dc.generators[0].ifs] == ['field.init'])
+        dc = kw.value if kw.arg is None else None
+        if isinstance(dc, ast.Name):
+          dc = roles.deref(f, dc)
+        if isinstance(dc, ast.DictComp) and len(
+            dc.generators) == 1 and isinstance(
+                dc.generators[0].target, ast.Name):
+          fv = dc.generators[0].target.id
+          ok = ok or (
+              unparse(dc.key) == f'{fv}.name' and
+              unparse(dc.value) == f'getattr({vpd}, {fv}.name)' and
+              f'dataclasses.fields({vpd})' in unparse(dc.generators[0].iter)
+              and [unparse(i) for i in dc.generators[0].ifs] == [f'{fv}.init'])
   rs.check(ok, rule, f.qualname,
            'Config(type(value), **{every init field: its value})',
            ctx.loc(f, f.node))
